@@ -14,16 +14,21 @@ import (
 	"golang.org/x/tools/go/ssa"
 )
 
+// State: reach is the exact path condition (branch conditions only); assumptions are kept
+// as global guarded facts (e.facts) so that hypotheses can be sliced per obligation.
 type State struct {
 	reach string
-	pend  []string
 	heap  map[string]string
 	alloc string
 }
 
+type factRec struct {
+	guard string
+	f     string
+}
+
 func (s *State) clone() *State {
 	n := &State{reach: s.reach, alloc: s.alloc}
-	n.pend = append([]string(nil), s.pend...)
 	n.heap = make(map[string]string, len(s.heap))
 	for k, v := range s.heap {
 		n.heap[k] = v
@@ -46,6 +51,8 @@ type Obligation struct {
 	// for vacuity (expect sat)
 	ExpectSat bool
 	replayConfirmed bool
+	NFacts int
+	Sliced bool
 }
 
 type Frame struct {
@@ -100,6 +107,148 @@ type Enc struct {
 	nobounds bool
 	inlineStack []*ssa.Function
 	callOrd  map[string]int
+	lastFacts []string
+	facts    []factRec
+	recState *State
+	rec      map[string]bool
+}
+
+// specAssume evaluates a clause and assumes it together with the well-typedness facts of
+// the memory it reads; specOblige assumes those facts and then asserts the clause.
+func (e *Enc) specAssume(st *State, x *SExpr, env *SpecEnv) {
+	g := e.evalBool(x, env)
+	for _, f := range e.lastFacts {
+		for _, t := range splitAndTerm(f) {
+			e.assume(st, t)
+		}
+	}
+	for _, t := range splitAndTerm(g) {
+		e.assume(st, t)
+	}
+}
+
+func (e *Enc) specOblige(st *State, kind string, x *SExpr, env *SpecEnv, desc string, props []string) {
+	for _, part := range splitConj(x) {
+		g := e.evalBool(part, env)
+		for _, f := range e.lastFacts {
+			for _, t := range splitAndTerm(f) {
+				e.assume(st, t)
+			}
+		}
+		d := desc
+		if part != x {
+			d = desc + "  [part: " + part.String() + "]"
+		}
+		terms := splitAndTerm(g)
+		for i, t := range terms {
+			d2 := d
+			if len(terms) > 1 {
+				d2 = fmt.Sprintf("%s  [conjunct %d/%d]", d, i+1, len(terms))
+			}
+			e.oblige(st, kind, t, d2, props)
+		}
+	}
+}
+
+// splitAndTerm splits a top-level (and a b c) SMT term (also under (=> p (and ...))).
+func splitAndTerm(t string) []string {
+	args, op := sexprArgs(t)
+	if op == "and" {
+		var out []string
+		for _, a := range args {
+			out = append(out, splitAndTerm(a)...)
+		}
+		return out
+	}
+	if op == "forall" && len(args) == 2 {
+		rs := splitAndTerm(args[1])
+		if len(rs) > 1 {
+			var out []string
+			for _, r := range rs {
+				out = append(out, "(forall "+args[0]+" "+r+")")
+			}
+			return out
+		}
+	}
+	if op == "=>" && len(args) == 2 {
+		rs := splitAndTerm(args[1])
+		if len(rs) > 1 {
+			var out []string
+			for _, r := range rs {
+				out = append(out, "(=> "+args[0]+" "+r+")")
+			}
+			return out
+		}
+	}
+	return []string{t}
+}
+
+func sexprArgs(t string) ([]string, string) {
+	if len(t) < 2 || t[0] != '(' {
+		return nil, ""
+	}
+	var parts []string
+	depth := 0
+	start := -1
+	inBar := false
+	for i := 1; i < len(t)-1; i++ {
+		c := t[i]
+		if inBar {
+			if c == '|' {
+				inBar = false
+			}
+			continue
+		}
+		switch {
+		case c == '|':
+			inBar = true
+			if start < 0 {
+				start = i
+			}
+		case c == '(':
+			if depth == 0 && start < 0 {
+				start = i
+			}
+			depth++
+		case c == ')':
+			depth--
+		case c == ' ' || c == '\n':
+			if depth == 0 && start >= 0 {
+				parts = append(parts, t[start:i])
+				start = -1
+			}
+		default:
+			if start < 0 {
+				start = i
+			}
+		}
+	}
+	if start >= 0 {
+		parts = append(parts, t[start:len(t)-1])
+	}
+	if len(parts) == 0 {
+		return nil, ""
+	}
+	return parts[1:], parts[0]
+}
+
+// splitConj splits A && B and P ==> (A && B) into separate goals.
+func splitConj(x *SExpr) []*SExpr {
+	if x.Op == "bin" && x.Name == "&&" {
+		return append(splitConj(x.Args[0]), splitConj(x.Args[1])...)
+	}
+	if x.Op == "bin" && x.Name == "==>" {
+		rs := splitConj(x.Args[1])
+		if len(rs) == 1 {
+			return []*SExpr{x}
+		}
+		var out []*SExpr
+		for _, r := range rs {
+			out = append(out, &SExpr{Op: "bin", Name: "==>", Args: []*SExpr{x.Args[0], r}})
+		}
+		return out
+	}
+	return []*SExpr{x}
 }
 
 func (e *Enc) note(format string, args ...interface{}) {
@@ -118,28 +267,30 @@ func (e *Enc) unsupported(format string, args ...interface{}) {
 
 // ---------- state helpers ----------
 
-func (e *Enc) flush(st *State) {
-	if len(st.pend) == 0 {
+func (e *Enc) flush(st *State) {}
+
+// assume records a fact that holds whenever execution reaches the current point.
+func (e *Enc) assume(st *State, f string) {
+	if f == "true" || f == "" || st.reach == "false" {
 		return
 	}
+	e.facts = append(e.facts, factRec{st.reach, f})
+}
+
+// branch strengthens the path condition with a branch condition.
+func (e *Enc) branch(st *State, c string) {
 	if st.reach == "false" {
-		st.pend = nil
 		return
 	}
-	body := and(append([]string{st.reach}, st.pend...)...)
-	st.pend = nil
-	if body == "false" {
+	b := and(st.reach, c)
+	if b == "false" {
 		st.reach = "false"
 		return
 	}
-	st.reach = e.s.FreshDef("r", "Bool", body)
-}
-
-func (e *Enc) assume(st *State, f string) {
-	if f == "true" || f == "" {
+	if b == st.reach {
 		return
 	}
-	st.pend = append(st.pend, f)
+	st.reach = e.s.FreshDef("pc", "Bool", b)
 }
 
 func (e *Enc) comp(st *State, name, sort string) string {
@@ -149,6 +300,9 @@ func (e *Enc) comp(st *State, name, sort string) string {
 		}
 	} else {
 		e.compSort[name] = sort
+	}
+	if e.recState == st && e.rec != nil {
+		e.rec[name] = true
 	}
 	if t, ok := st.heap[name]; ok {
 		return t
@@ -181,7 +335,7 @@ func (e *Enc) oblige(st *State, kind string, goal string, desc string, props []s
 	if len(ps) == 0 {
 		ps = e.props
 	}
-	e.obls = append(e.obls, &Obligation{Name: name, Kind: kind, Hyp: st.reach, Goal: goal, Desc: desc, Props: ps, Fn: e.fnName})
+	e.obls = append(e.obls, &Obligation{Name: name, Kind: kind, Hyp: st.reach, NFacts: len(e.facts), Goal: goal, Desc: desc, Props: ps, Fn: e.fnName})
 	e.assume(st, goal)
 }
 
@@ -289,8 +443,8 @@ func (e *Enc) wf(v *Val, alloc string) string {
 	case KSlice:
 		k := sizeOf(elemType(v.T))
 		p, l, c := v.S[0], v.S[1], v.S[2]
-		return fmt.Sprintf("(and (<= 0 %s) (<= 0 %s) (<= %s %s) (<= %s %s) (<= (+ %s (* %d %s)) %s) (=> (= %s 0) (= %s 0)))",
-			p, l, l, c, c, pow2(62), p, k, c, alloc, p, c)
+		return fmt.Sprintf("(and (<= 0 %s) (<= 0 %s) (<= %s %s) (<= %s %s) (<= (+ %s %s) %s) (=> (= %s 0) (= %s 0)))",
+			p, l, l, c, c, pow2(62), p, mulK(k, c), alloc, p, c)
 	case KIface:
 		return fmt.Sprintf("(and (<= 0 %s) (=> (= %s 0) (= %s 0)))", v.S[0], v.S[0], v.S[1])
 	case KStruct, KTuple:
@@ -395,8 +549,7 @@ func (e *Enc) eqVal(a, b *Val) string {
 		}
 		return and(eq(a.S[0], b.S[0]), eq(a.S[1], b.S[1]))
 	case KSlice:
-		// only comparison with nil is legal in Go
-		return eq(a.S[0], b.S[0])
+		return and(eq(a.S[0], b.S[0]), eq(a.S[1], b.S[1]), eq(a.S[2], b.S[2]))
 	case KStruct, KTuple:
 		var cs []string
 		for i := range a.F {
@@ -797,9 +950,9 @@ func (e *Enc) runBody(fr *Frame, init *State) (*State, *Val) {
 				c := e.val(fr, st, x.Cond).term()
 				e.flush(st)
 				t := st.clone()
-				e.assume(t, c)
+				e.branch(t, c)
 				f := st.clone()
-				e.assume(f, not(c))
+				e.branch(f, not(c))
 				e.edge(fr, ins, b, b.Succs[0], t)
 				e.edge(fr, ins, b, b.Succs[1], f)
 			case *ssa.Jump:
@@ -830,7 +983,6 @@ func (e *Enc) runBody(fr *Frame, init *State) (*State, *Val) {
 	if len(rets) == 0 {
 		d := init.clone()
 		d.reach = "false"
-		d.pend = nil
 		return d, e.zero(fn.Signature.Results())
 	}
 	var eds []edgeIn
@@ -911,6 +1063,23 @@ func (e *Enc) mergeStates(in []edgeIn) *State {
 			n.heap[k] = t
 			continue
 		}
+		anyQ := false
+		for _, x := range live {
+			if e.s.Q[get(x.st, k)] {
+				anyQ = true
+			}
+		}
+		if anyQ && strings.HasPrefix(e.compSort[k], "(Array Int ") {
+			// pointwise merge keeps quantified array definitions E-matchable
+			pt := sel(t, "a!c")
+			for i := len(live) - 2; i >= 0; i-- {
+				pt = ite(live[i].st.reach, sel(get(live[i].st, k), "a!c"), pt)
+			}
+			nw := e.s.Fresh("h."+k, e.compSort[k])
+			e.s.AddFact(nw, fmt.Sprintf("(forall ((a!c Int)) (! (= (select %s a!c) %s) :pattern ((select %s a!c))))", nw, pt, nw))
+			n.heap[k] = nw
+			continue
+		}
 		for i := len(live) - 2; i >= 0; i-- {
 			t = ite(live[i].st.reach, get(live[i].st, k), t)
 		}
@@ -986,6 +1155,25 @@ func (e *Enc) enterBlock(fr *Frame, b *ssa.BasicBlock, in []edgeIn) *State {
 		}
 		fr.vals[phi] = nv
 		e.assume(st, e.wf(nv, st.alloc))
+		if phi.Comment == "rangeindex" {
+			// go/ssa range-over-slice loops: i = phi(-1, i+1)
+			e.assume(st, fmt.Sprintf("(>= %s (- 1))", nv.term()))
+			// ... and the loop condition i+1 < n (n computed before the loop) gives i < n
+			for _, in2 := range b.Instrs {
+				add, ok := in2.(*ssa.BinOp)
+				if !ok || add.Op != token.ADD || add.X != ssa.Value(phi) {
+					continue
+				}
+				for _, in3 := range b.Instrs {
+					cmp, ok := in3.(*ssa.BinOp)
+					if ok && cmp.Op == token.LSS && cmp.X == ssa.Value(add) {
+						if nval, have := fr.vals[cmp.Y]; have {
+							e.assume(st, fmt.Sprintf("(and (<= 0 %s) (< %s %s))", nval.term(), nv.term(), nval.term()))
+						}
+					}
+				}
+			}
+		}
 	}
 	// assume invariants
 	e.assumeLoopInv(fr, li, st)
@@ -1035,38 +1223,64 @@ func (e *Enc) checkLoopInvWith(fr *Frame, li *loopInfo, st *State, over map[ssa.
 	defer func() { fr.phiOver = save }()
 	for _, cl := range cls {
 		env := e.specEnv(fr, st, li.header)
-		g := e.evalBool(cl.E, env)
 		if cl.Free {
-			e.assume(st, g)
+			e.specAssume(st, cl.E, env)
 			continue
 		}
 		kind := fmt.Sprintf("loop%d-%s", li.ord, which)
 		if fr.top == false {
 			kind = fr.callName + "." + kind
 		}
-		e.oblige(st, kind, g, cl.Src, cl.Props)
+		e.specOblige(st, kind, cl.E, env, cl.Src, cl.Props)
 	}
 }
 
 func (e *Enc) assumeLoopInv(fr *Frame, li *loopInfo, st *State) {
 	for _, cl := range e.loopClauses(fr, li) {
 		env := e.specEnv(fr, st, li.header)
-		g := e.evalBool(cl.E, env)
 		if cl.Free {
 			e.note("free loop invariant assumed in %s loop %d: %s", fr.fn.Name(), li.ord, cl.Src)
 		}
-		e.assume(st, g)
+		e.specAssume(st, cl.E, env)
 	}
 }
 
-// havocLoop replaces every component the loop body may write by a fresh version.
+// write sets: per component either the whole component or a list of address ranges
+type wsInfo struct {
+	sort   string
+	whole  bool
+	ranges [][2]string // lo, n ; lo == "fresh" means anything allocated after loop entry
+}
+type WS map[string]*wsInfo
+
+func (ws WS) get(comp, sort string) *wsInfo {
+	w := ws[comp]
+	if w == nil {
+		w = &wsInfo{sort: sort}
+		ws[comp] = w
+	}
+	return w
+}
+func (ws WS) whole(comp, sort string) { ws.get(comp, sort).whole = true }
+func (ws WS) rng(comp, sort, lo, n string) {
+	w := ws.get(comp, sort)
+	for _, r := range w.ranges {
+		if r[0] == lo && r[1] == n {
+			return
+		}
+	}
+	w.ranges = append(w.ranges, [2]string{lo, n})
+}
+
+// havocLoop replaces every component the loop body may write by a fresh version that
+// agrees with the old one outside the (syntactically determined) written regions.
 func (e *Enc) havocLoop(fr *Frame, li *loopInfo, st *State) {
-	ws := map[string]string{}
+	ws := WS{}
 	allocs := false
 	all := false
 	for b := range li.body {
 		for _, instr := range b.Instrs {
-			e.writeSet(fr, instr, ws, &allocs, &all, 0)
+			e.writeSet(fr, li, st, instr, ws, &allocs, &all, 0)
 		}
 	}
 	if all {
@@ -1078,9 +1292,24 @@ func (e *Enc) havocLoop(fr *Frame, li *loopInfo, st *State) {
 		ks = append(ks, k)
 	}
 	sort.Strings(ks)
+	entryAlloc := st.alloc
 	for _, k := range ks {
-		e.compSort[k] = ws[k]
-		st.heap[k] = e.s.Fresh(sym("h."+k), ws[k])
+		w := ws[k]
+		old := e.comp(st, k, w.sort)
+		nw := e.s.Fresh("h."+k, w.sort)
+		if !w.whole {
+			var outs []string
+			for _, r := range w.ranges {
+				if r[0] == "fresh" {
+					outs = append(outs, fmt.Sprintf("(< a!c %s)", entryAlloc))
+				} else {
+					outs = append(outs, fmt.Sprintf("(not (and (<= %s a!c) (< a!c (+ %s %s))))", r[0], r[0], r[1]))
+				}
+			}
+			e.s.AddFact(nw, fmt.Sprintf("(forall ((a!c Int)) (! (=> %s (= (select %s a!c) (select %s a!c))) :pattern ((select %s a!c))))",
+				and(outs...), nw, old, nw))
+		}
+		st.heap[k] = nw
 	}
 	if allocs {
 		na := e.s.Fresh("alloc", "Int")
@@ -1107,56 +1336,116 @@ func (e *Enc) havocAll(st *State) {
 	e.note("havoc-all used (uncontracted effectful call)")
 }
 
+// rootAlloc follows FieldAddr/IndexAddr chains to a local allocation.
+func rootAlloc(v ssa.Value) *ssa.Alloc {
+	for {
+		switch x := v.(type) {
+		case *ssa.Alloc:
+			return x
+		case *ssa.FieldAddr:
+			v = x.X
+		case *ssa.IndexAddr:
+			if !isPointer(x.X.Type()) {
+				return nil
+			}
+			v = x.X
+		default:
+			return nil
+		}
+	}
+}
+
 // writeSet: components possibly written by an instruction (syntactic over-approximation)
-func (e *Enc) writeSet(fr *Frame, instr ssa.Instruction, ws map[string]string, allocs *bool, all *bool, depth int) {
-	addLeaves := func(t types.Type, ctx string) {
+func (e *Enc) writeSet(fr *Frame, li *loopInfo, st *State, instr ssa.Instruction, ws WS, allocs *bool, all *bool, depth int) {
+	addLeaves := func(t types.Type, ctx string, lo, n string) {
 		var lvs []leaf
 		e.memLeaves(t, ctx, &lvs)
 		for _, lf := range lvs {
-			ws[lf.suffix] = lf.sort
+			if lo == "" {
+				ws.whole(lf.suffix, lf.sort)
+			} else {
+				ws.rng(lf.suffix, lf.sort, lo, n)
+			}
 		}
+	}
+	localRange := func(addr ssa.Value) (string, string) {
+		a := rootAlloc(addr)
+		if a == nil {
+			return "", ""
+		}
+		if depth > 0 || li.body[a.Block()] {
+			return "fresh", ""
+		}
+		if v, ok := fr.vals[a]; ok {
+			return v.term(), fmt.Sprintf("%d", sizeOf(derefType(a.Type())))
+		}
+		return "", ""
 	}
 	switch x := instr.(type) {
 	case *ssa.Store:
 		t := derefType(x.Addr.Type())
-		addLeaves(t, e.staticComp(x.Addr))
+		lo, n := localRange(x.Addr)
+		addLeaves(t, e.staticComp(x.Addr), lo, n)
 	case *ssa.Alloc, *ssa.MakeSlice, *ssa.MakeMap, *ssa.MakeInterface, *ssa.MakeClosure, *ssa.MakeChan:
 		*allocs = true
 		if a, ok := x.(*ssa.Alloc); ok {
-			addLeaves(derefType(a.Type()), "")
+			addLeaves(derefType(a.Type()), "", "fresh", "")
+		}
+		if m, ok := x.(*ssa.MakeSlice); ok {
+			addLeaves(elemType(m.Type()), "", "fresh", "")
 		}
 		if m, ok := x.(*ssa.MakeMap); ok {
-			e.mapWriteSet(m.Type().Underlying().(*types.Map), ws)
+			e.mapWriteSet(m.Type().Underlying().(*types.Map), ws, true)
+		}
+		if _, ok := x.(*ssa.MakeChan); ok {
+			ws.rng("CH:len", "(Array Int Int)", "fresh", "")
+			ws.rng("CH:cap", "(Array Int Int)", "fresh", "")
 		}
 		if m, ok := x.(*ssa.MakeInterface); ok {
-			if kindOf(m.X.Type()) == KStruct {
-				addLeaves(m.X.Type(), "")
+			if k := kindOf(m.X.Type()); k != KInt && k != KBool {
+				addLeaves(m.X.Type(), "", "fresh", "")
 			}
 		}
 	case *ssa.MapUpdate:
-		e.mapWriteSet(x.Map.Type().Underlying().(*types.Map), ws)
+		e.mapWriteSet(x.Map.Type().Underlying().(*types.Map), ws, false)
 	case *ssa.Next:
 		if !x.IsString {
-			ws["IT:visited"] = "(Array Int (Array Int Bool))"
+			if r, ok := x.Iter.(*ssa.Range); ok {
+				mt := r.X.Type().Underlying().(*types.Map)
+				mc := e.mapInfo(mt)
+				ws.whole("IT:"+mc.mk, "(Array Int "+nestArr(mc.ks, "Bool")+")")
+			}
 		}
 	case *ssa.Range:
 		*allocs = true
-		ws["IT:visited"] = "(Array Int (Array Int Bool))"
+		if mt, ok := x.X.Type().Underlying().(*types.Map); ok {
+			mc := e.mapInfo(mt)
+			ws.whole("IT:"+mc.mk, "(Array Int "+nestArr(mc.ks, "Bool")+")")
+		}
+	case *ssa.Select:
+		ws.whole("CH:len", "(Array Int Int)")
 	case ssa.CallInstruction:
 		if _, isGo := x.(*ssa.Go); isGo {
 			return
 		}
-		e.callWriteSet(fr, x.Common(), ws, allocs, all, depth)
+		e.callWriteSet(fr, li, st, x.Common(), ws, allocs, all, depth)
 	}
 }
 
-func (e *Enc) mapWriteSet(mt *types.Map, ws map[string]string) {
+func (e *Enc) mapWriteSet(mt *types.Map, ws WS, freshOnly bool) {
 	mk := typeKey(mt)
 	ks := e.mapKeySorts(mt)
-	ws["MD:"+mk] = "(Array Int " + nestArr(ks, "Bool") + ")"
-	ws["ML:"+mk] = "(Array Int Int)"
+	add := func(c, s string) {
+		if freshOnly {
+			ws.rng(c, s, "fresh", "")
+		} else {
+			ws.whole(c, s)
+		}
+	}
+	add("MD:"+mk, "(Array Int "+nestArr(ks, "Bool")+")")
+	add("ML:"+mk, "(Array Int Int)")
 	for _, lf := range e.mapValLeaves(mt) {
-		ws["MV:"+mk+lf.suffix] = "(Array Int " + nestArr(ks, lf.sort) + ")"
+		add("MV:"+mk+lf.suffix, "(Array Int "+nestArr(ks, lf.sort)+")")
 	}
 }
 
